@@ -3,6 +3,7 @@ pub mod c16;
 pub mod c17;
 pub mod grpcx;
 pub mod rawhttp;
+pub mod restart;
 pub mod routes;
 pub mod spell;
 pub mod srv;
